@@ -83,6 +83,7 @@ MUTANTS = [
     # F55 / F56 re-introduced
     ('N18', C + 'dd_dtw.c', 'seq_t dtw_warping_paths_affinity_ndim(', 'for (; ci<MIN(ri, l2); ci++) {', 'for (; ci<ri; ci++) {', [('C08', 'R-MAP'), ('C18', 'R-MAP')]),
     ('N19', P + 'clustering/kmeans.py', 'def kmedoids_centers', "if self.dists_options.get('use_c', False):\n            fn_dm", "if self.dists_options.use_c:\n            fn_dm", [('C16', 'R-SIG')]),
+    ('N22', P + 'dtw.py', 'def _distance_with_params_ndim', "    kwargs = dict(t[2])\n    kwargs['use_ndim'] = True\n    return distance(t[0], t[1], **kwargs)", "    return distance(t[0], t[1], use_ndim=True, **t[2])", [('C07', 'R-ITER')]),
     # the 0-means-off encoding, decided symbolically
     ('N20', C + 'dd_dtw.c', 'seq_t dtw_distance_ndim(seq_t *s1', 'if (max_step == 0) {\n        max_step = INFINITY;', 'if (max_step < 0) {\n        max_step = INFINITY;', [('C10', 'R-TAB'), ('C16', 'R-TAB')]),
     # euclidean loop summary: the surplus of series 1 compared with the first instead of the last element of series 2
